@@ -38,8 +38,6 @@ impl core::ops::BitOr for OpenTreeFlags {
     type Output = OpenTreeFlags;
     fn bitor(self, o: OpenTreeFlags) -> (r: OpenTreeFlags) { OpenTreeFlags { bits: self.bits | o.bits } }
 }
-/// the descriptor was created close-on-exec (C05/C11: every descriptor the library opens is)
-pub uninterp spec fn cloexec(fd: int) -> bool;
 /// R2: the bound `AsRef<str>`
 pub trait AsRefStr { fn as_ref(&self) -> (r: &str); }
 impl AsRefStr for &str { fn as_ref(&self) -> (r: &str) { *self } }
